@@ -1,6 +1,7 @@
 """C09 — the SNAP tunnel carries traffic only for identities authorised at that moment."""
 import templates as T
-from facts import tokens, fmt, short, walk
+import panic as PN
+from facts import tokens, fmt, short, walk, strip_sites
 
 CRATES = ["snap_tun", "snap_control"]
 
@@ -76,6 +77,16 @@ def run(F, R, tier, cfg):
             R.violation("FLOW-identity", "%s/identity-origin" % p,
                         "identity passed to is_authorized does not originate in the tunnel's peer_static / the handshake's "
                         "peer_static_public: %s" % fmt(o, 200), c.span.loc)
+        # FLOW-now: "authorised at that moment" — the instant the registration is checked against is read in this very call
+        # (Instant::now()) or handed in by the caller as a parameter; an instant stored in the server (last event, last tick)
+        # is stale by the time an outbound payload is handled
+        on = PN._peel_refs(strip_sites(b.origin(c.args[1])))
+        fresh = (on[0] == "call" and on[1].endswith("Instant::now")) or on[0] == "param"
+        R.ob("FLOW-now", "is_authorized in %s is asked about a fresh instant: %s" % (short(p), fmt(on, 60)), fresh, True,
+             {"rule": "FLOW-now", "fn": p, "loc": c.span.loc, "instant": fmt(on, 100), "holds": fresh})
+        if not fresh:
+            R.violation("FLOW-now", "%s/now" % p, "the registration is checked against %s, not against the current time: payloads keep flowing after the "
+                        "registration lapsed until the stored instant is refreshed" % fmt(on, 100), c.span.loc)
         if "field:peer_static_public" in tk:
             # handshake path: the same parsed key must reach Tunn::new and ActiveTunnel.peer_static
             src = [n for n in walk(o) if n[0] == "call" and n[1].endswith("parse_handshake_anon")]
